@@ -840,7 +840,7 @@ pub fn def(tier: Tier) -> PropertyDef {
 				(Just(cfg), prop_oneof![3 => gen::candle_stream_n(p, max_len), 1 => gen::regime_candle_stream_n(p, max_len)])
 			})
 			.prop_map(|(cfg, s)| VCase { cfg, s });
-		checks.push(pt(&format!("values_{name}"), tier.pick(800, 6000), strat, run));
+		checks.push(pt(&format!("values_{name}"), tier.pick(3000, 10000), strat, run));
 	}
 	PropertyDef {
 		id: "C05",
